@@ -317,7 +317,8 @@ def case_refusal(ctx, index, rng: random.Random):
     rec = ctx.rec
     rec.mon("C17.differential")
     kind = rng.choice(["pd_nonnumeric", "pl_nonnumeric", "pl_null", "df_to_h1", "series_to_h", "ragged", "scalar", "pl_df_to_h1", "weights_shape", "dim_mismatch",
-                       "pd_df_dim_mismatch", "pl_df_dim_mismatch", "h3_two_columns", "pd_df_nonnumeric"])
+                       "pd_df_dim_mismatch", "pl_df_dim_mismatch", "h3_two_columns", "pd_df_nonnumeric", "pl_series_to_h", "weights_pl_df", "weights_pd_df",
+                       "pl_weights_null", "pl_df_null", "pl_df_nonnumeric_selected"])
     raised = False
     try:
         with warnings.catch_warnings():
@@ -348,6 +349,18 @@ def case_refusal(ctx, index, rng: random.Random):
                 physt.h3(pd.DataFrame({"a": [1.0, 2.0, 3.0], "b": [2.0, 3.0, 5.0]}), 2)
             elif kind == "pd_df_nonnumeric":
                 physt.h(pd.DataFrame({"a": [1.0, 2.0, 3.0], "b": ["x", "y", "z"]}), 2)
+            elif kind == "pl_series_to_h":
+                physt.h(pl.Series("s", [1.0, 2.0, 3.0]), 2)
+            elif kind == "weights_pl_df":
+                physt.h1([1.0, 2.0, 3.0], np.array([0.0, 2.0, 4.0]), weights=pl.DataFrame({"w": [1.0, 2.0, 3.0]}))
+            elif kind == "weights_pd_df":
+                physt.h1([1.0, 2.0, 3.0], np.array([0.0, 2.0, 4.0]), weights=pd.DataFrame({"w": [1.0, 2.0, 3.0], "v": [1.0, 2.0, 3.0]}))
+            elif kind == "pl_weights_null":
+                physt.h1([1.0, 2.0, 3.0], np.array([0.0, 2.0, 4.0]), weights=pl.Series("w", [1.0, None, 3.0]))
+            elif kind == "pl_df_null":
+                physt.h(pl.DataFrame({"a": [1.0, None, 3.0], "b": [2.0, 3.0, 5.0]}), 2)
+            elif kind == "pl_df_nonnumeric_selected":
+                pl.DataFrame({"a": [1.0, 2.0, 3.0], "b": ["x", "y", "z"]}).physt.h("a", "b", bins=2)
             else:
                 physt.h(np.zeros((4, 3)), 2, dim=2)
     except Exception:
